@@ -17,7 +17,7 @@ from .. import gen
 LEVEL = 'exploration'
 RULE = ("Configurations: explainer in {IncrementalPFI, IncrementalSage, BatchSage, IntervalSage} x storage in {UniformReservoir, "
         "GeometricReservoir, Interval, Sequence, Batch, TreeStorage} x imputer in {Marginal joint/product, Default, TreeImputer with/without "
-        "use_storage and direct_predict_numeric}, static/dynamic, n_inner 1..2, a seed pair and a float stream of 6..40 observations "
+        "use_storage and direct_predict_numeric}, static/dynamic, n_inner 1..2, BatchSage in both its normal and its original-SAGE mode, a seed pair and a float stream of 6..40 observations "
         "(mixed categorical/numerical for trees; tree seed explicit or left at its default). Differential replay: run A (seed both global "
         "generators, build fresh, stream) vs run B in the same process after INTERFERENCE (other storages/explainers/imputers/trackers/"
         "river metrics created and used - consuming global draws and allocating -, gc.collect(), time.time/time_ns/perf_counter/monotonic "
@@ -173,6 +173,8 @@ def execute(case, seeds=None):
     n_diff = 0
     for x, y in stream_of(case, names):
         kw = {'verbose': False} if case['cls'] in ('batch', 'interval') else {}
+        if case['cls'] == 'batch' and case.get('original'):
+            kw['original_sage'] = True          # the "original SAGE" entry point has random draws of its own
         out = ex.explain_one(dict(x), y, **kw)
         h.update(repr(sorted((repr(k), float(v).hex()) for k, v in out.items())).encode())
     h.update(storage_digest(storage).encode())
@@ -309,7 +311,7 @@ def cases(draw, combo):
             'tree_seed': tree_seed if storage == 'tree' else None, 'model_kind': tree_seed if tree_seed in ('river_str', 'river_bound') else 'plain',
             'grace': draw(st.sampled_from([5, 8, 20])),
             'interference': rev(0, 5), 'clock_offset': draw(st.sampled_from([1000.0, 0.0, -5e8])),
-            'clock_step': draw(st.sampled_from([2.0, 0.0, 1e-6, 86400.0]))}
+            'clock_step': draw(st.sampled_from([2.0, 0.0, 1e-6, 86400.0])), 'original': cls == 'batch' and storage != 'tree' and draw(st.sampled_from([True, False]))}
 
 
 SUBS = {'replay': run_case}
